@@ -1,7 +1,9 @@
 //! Deterministic simulation harness for rosu-pp. See /verif/DESIGN.md.
 pub mod grad;
+pub mod hist;
 pub mod mapgen;
 pub mod prng;
 pub mod runner;
+pub mod seams;
 pub mod spec;
 pub mod sut;
